@@ -2,6 +2,12 @@
 // (numerical quadrature, Eigen interpolation adapter).
 #include "drv_core.h"
 #include <bspline/integration/numerical.h>
+// results of the driver grid reach order 7; the region evaluator observes them through their accessors
+template class bspline::Spline<double, 4>;
+template class bspline::Spline<double, 5>;
+template class bspline::Spline<double, 6>;
+template class bspline::Spline<double, 7>;
+
 namespace vt {
 template <size_t A, size_t B>
 void quad_ops() {
